@@ -1,10 +1,19 @@
-(** C08 - Batch operations equal the same single-entity operations one by one (level:
-    partial).  Proved on the model: a batch exchange returns the number of entities in the
-    tables the filter selects at call time, and it touches only the store (the same frame as
-    the single operation).  The per-entity equality of the resulting states is decided by
-    the correspondence run against the model, whose batch moves use the same cell copy
-    ([copy_cells], Proofs/Store.v) as the single move. *)
-From Arche Require Import Model.Base Model.Filter Model.World Model.Ops Proofs.Misc Proofs.StepFrame.
+(** C08 - Batch operations equal the same single-entity operations one by one.
+    Proved on the model for Batch.Add / Remove / Exchange and Relations.ExchangeBatch with an
+    uncached filter, on every world the refinement relation [R] covers (any registry,
+    relation tables, retired tables, registered filters): the call refines the abstract store
+    with the single-entity exchange [a_exchange] applied to EXACTLY the entities that matched
+    the filter when the call was made (each once), the returned count is their number, all
+    other entities are untouched, and the storage / graph / cache invariants hold afterwards
+    ([C08_batch_exchange]); the abstract state is the one reached by applying the
+    single-entity update to those entities one by one in any order ([C08_equals_singles]).
+    The building block is [C08_move_all]: moving a whole table is the single move of each of
+    its rows.  Batch.SetRelation, RemoveEntities, batch creation, the Q variants and cached
+    filters as arguments: correspondence run against the model (whose batch paths share
+    [move_all] / [copy_cells] with the proved ones). *)
+From Arche Require Import Model.Base Model.Filter Model.World Model.Ops Proofs.Misc Proofs.StepFrame
+  Proofs.Store Proofs.WorldInv Proofs.RelGraph Proofs.RelWorld Proofs.RelRefine Proofs.QueryExact Proofs.CacheInv
+  Proofs.BatchMove Proofs.BatchExchange.
 
 Theorem C08_count : forall w a add rem rel w' n evs,
   op_batch_exchange w a add rem rel = (w', Ok (VNat n), evs) -> (add <> [] \/ rem <> []) ->
@@ -14,4 +23,47 @@ Proof. exact batch_exchange_count. Qed.
 Theorem C08_frame : forall w o, touches_rr o = false -> frame_rr w (fst (fst (step w o))).
 Proof. exact step_frame_rr. Qed.
 
+
+Theorem C08_batch_exchange : forall w A f add rem rel w' n evs,
+  R w A -> cache_ok w -> Forall (fun id => id < length (as_reg A)) add -> (add <> [] \/ rem <> []) ->
+  op_batch_exchange w (FPlain f) add rem rel = (w', Ok (VNat n), evs) ->
+  let L := table_ents w (get_tables w f) in
+  n = length L /\ NoDup L /\ (forall e, e ∈ L <-> (e ∈ as_live A /\ ent_matches w f e)) /\
+  R w' (a_map A L (fun a => a_exchange (as_reg A) a add rem rel)) /\ cache_ok w'.
+Proof. exact batch_exchange_refines. Qed.
+
+Theorem C08_equals_singles : forall (A : astate) (L : list Entity) g e,
+  NoDup L ->
+  assoc_get e (as_ents (a_map A L g)) = assoc_get e (as_ents (foldl (fun A e0 => a_upd A e0 g) A L)).
+Proof. exact batch_equals_singles. Qed.
+
+(** One table of the batch: the single-entity effect on each of its entities ([xviews] is the
+    conclusion of the single-entity theorem [C05_exchange_with_relation]), nothing else changes. *)
+Theorem C08_one_table : forall w live src st add rem rel w' sg,
+  world_okr w live -> cache_ok w -> w_tables w !! src = Some st -> t_ents st <> [] ->
+  Forall (fun id => id < length (w_reg w)) add -> (add <> [] \/ rem <> []) ->
+  exchange_table w src add rem rel = Some (w', sg) ->
+  world_okr w' live /\ cache_ok w' /\
+  (forall e, e ∈ live -> e ∉ t_ents st -> ent_cells w' e = ent_cells w e) /\
+  (forall e, e ∈ t_ents st -> exists sn mask, w_nodes w !! t_node st = Some sn /\
+      exchange_mask (n_mask sn) add rem = Some mask /\ ent_mask w' e = Some mask /\
+      forall id, id < w_tb w -> bit mask id = true ->
+        comp_val w' e id = if bit (n_mask sn) id then comp_val w e id else Some 0%Z).
+Proof.
+  intros w live src st add rem rel w' sg K C Hst Hne Hreg Hn H.
+  destruct (exchange_table_rok w live src st add rem rel w' sg K C Hst Hne Hreg Hn H)
+    as (sn & mask & target & dst & newrel & Hsn & Hmask & _ & _ & _ & _ & _ & K' & C' & _ & _ & _ & _ & Hoth & Hmoved & _).
+  split; [done|]. split; [done|]. split; [done|]. intros e He. exists sn, mask.
+  destruct (Hmoved e He) as (Hm & _ & _ & Hv). done.
+Qed.
+
+Example C08_nonvacuous :
+  let w := run (world_init 2 2 64) demo_batch_ops in
+  fst (step w (OBatchExchange false (FPlain (FAll 1)) [2] [] None)) =
+    (fst (fst (step w (OBatchExchange false (FPlain (FAll 1)) [2] [] None))), Ok (VNat 3)) /\
+  table_ents w (get_tables w (FAll 1)) = [mkE 1 0; mkE 2 0; mkE 3 0].
+Proof. exact demo_batch. Qed.
+
 Print Assumptions C08_count.
+Print Assumptions C08_batch_exchange.
+Print Assumptions C08_equals_singles.
